@@ -95,6 +95,8 @@ def run_config(case, monitor_reads=False, calls=None):
     elif fam == "DT":
         dev = devices.make_dt(serial=serial, meter=bool(case["flags"][0]), seed=case["seed"], fill="hash", comm_addr=None)
         inv = goodwe.DT(C.HOST, C.port_of(tr), 0, 1, 2)
+        if case["seed"] % 4 == 0:
+            dev.set_reg(30209, 0)   # meter served, its communication status register reads 0: served is served
     else:
         dev = devices.make_es(serial=serial, firmware=case["flags"][0], seed=case["seed"], fill="hash")
         inv = goodwe.ES(C.HOST, C.port_of(tr), 0, 1, 2)
